@@ -10,7 +10,7 @@ class P(piperun.PipeProperty):
                     'batch', 'unbatch', 'items', 'tile', 'shuffleOnce', 'sort', 'shard', 'cache', 'catch',
                     'copy', 'prefetch')
 
-    views = ('direct', 'direct', 'copy', 'direct', 'freeze', 'direct', 'profiled', 'direct', 'direct', 'direct', 'direct')
+    views = ('direct', 'direct', 'copy', 'direct', 'freeze', 'direct', 'profiled', 'direct', 'lazy_apply', 'direct', 'direct')
     source_modes = ('pickle', 'pickle', 'wu', 'copy', 'pickle', 'from', 'from_dataset')
 
     def oracle(self, p, obs):
